@@ -156,11 +156,13 @@ def oracle(sc):
         decoy = np.random.default_rng(7).normal(size=(2 * D + 6, D)) @ (np.eye(D) * 3.0) + 5.0
         dlab = [int(k % 2) + 100 for k in range(len(decoy))]
         w3, c3 = Whitening(pinv=pinv), WCCN(pinv=pinv)
-        core.impl(lambda: w3.fit(decoy))
-        core.impl(lambda: c3.fit(decoy, dlab))
-        r3 = core.impl(lambda: (w3.fit(xin), c3.fit(xin, y)))
+        core.impl(lambda: (w3.fit(decoy), np.asarray(w3.transform(decoy))))  # fitted *and used* on other data
+        core.impl(lambda: (c3.fit(decoy, dlab), np.asarray(c3.transform(decoy))))
+        r3 = core.impl(lambda: (w3.fit(xin), c3.fit(xin, y), np.asarray(w3.transform(X), dtype=float), np.asarray(c3.transform(X), dtype=float)))
         if isinstance(r3, core.ImplError) or not (np.array_equal(np.asarray(w3.weights), W) and np.array_equal(np.asarray(c3.weights), Wc)
-                                                  and np.array_equal(np.asarray(w3.input_subtract), np.asarray(w.input_subtract))):
+                                                  and np.array_equal(np.asarray(w3.input_subtract), np.asarray(w.input_subtract))
+                                                  and core.close(r3[2], Y, 1e-10, 1e-10 * (1 + float(np.max(np.abs(Y)))))
+                                                  and core.close(r3[3], Yc, 1e-10, 1e-10 * (1 + float(np.max(np.abs(Yc)))))):
             return {"sig": "refit-differs-from-fresh-estimator", "what": f"{name}: a Whitening / WCCN object fitted on other data first gives a different projection: {r3!r}"}
         if name == "numpy":
             # rename the classes 0..K-1 in order of first appearance: same partition
